@@ -42,25 +42,29 @@
     __CPROVER_ensures(TQ_PEQ(TQ_T(p_queue)->p_next, TQ_H(p_queue)) &&          \
                       TQ_PEQ(TQ_H(p_queue)->p_prev, TQ_T(p_queue)))
 
+/* (the clauses that fix head and tail come first: when the contract is ASSUMED in place of the body -- lemma units --
+ * the pointer predicates are applied in order, and the ring clauses mention head and tail) */
 #define TQ_PUSH_TAIL_CONTRACT                                                  \
-    TQ_PUSH_REQUIRES TQ_PUSH_ENSURES_COMMON                                    \
+    TQ_PUSH_REQUIRES                                                           \
     __CPROVER_ensures(TQ_PEQ(TQ_T(p_queue), p_thread))                         \
     __CPROVER_ensures(__CPROVER_old(TQ_N(p_queue)) == 0 ==>                    \
         (TQ_PEQ(TQ_H(p_queue), p_thread)))                                     \
     __CPROVER_ensures(__CPROVER_old(TQ_N(p_queue)) > 0 ==>                     \
         (TQ_PEQ(TQ_H(p_queue), __CPROVER_old(TQ_H(p_queue))) &&                \
          TQ_PEQ(p_thread->p_prev, __CPROVER_old(TQ_T(p_queue))) &&             \
-         TQ_PEQ(__CPROVER_old(TQ_T(p_queue))->p_next, p_thread)))
+         TQ_PEQ(__CPROVER_old(TQ_T(p_queue))->p_next, p_thread)))              \
+    TQ_PUSH_ENSURES_COMMON
 
 #define TQ_PUSH_HEAD_CONTRACT                                                  \
-    TQ_PUSH_REQUIRES TQ_PUSH_ENSURES_COMMON                                    \
+    TQ_PUSH_REQUIRES                                                           \
     __CPROVER_ensures(TQ_PEQ(TQ_H(p_queue), p_thread))                         \
     __CPROVER_ensures(__CPROVER_old(TQ_N(p_queue)) == 0 ==>                    \
         (TQ_PEQ(TQ_T(p_queue), p_thread)))                                     \
     __CPROVER_ensures(__CPROVER_old(TQ_N(p_queue)) > 0 ==>                     \
         (TQ_PEQ(TQ_T(p_queue), __CPROVER_old(TQ_T(p_queue))) &&                \
          TQ_PEQ(p_thread->p_next, __CPROVER_old(TQ_H(p_queue))) &&             \
-         TQ_PEQ(__CPROVER_old(TQ_H(p_queue))->p_prev, p_thread)))
+         TQ_PEQ(__CPROVER_old(TQ_H(p_queue))->p_prev, p_thread)))              \
+    TQ_PUSH_ENSURES_COMMON
 
 /* ---- pop_head ---- */
 #define TQ_POP_HEAD_CONTRACT                                                   \
